@@ -125,3 +125,110 @@ seal_h!(c11_seal_4_6, [4, 6]);
 seal_h!(c11_seal_empty_tx, [0]);
 seal_h!(c11_seal_1_0_9, [1, 0, 9]);
 seal_h!(c11_seal_12, [12]);
+
+// ===================================================================================== the run loop (lowered, see overlay.py LOWER_LOOPS)
+/// Drive the real `BatchMaker::run` over a concrete schedule of events (transaction arrivals of concrete sizes, timer
+/// expiries); after each event the loop runs until the task would go to sleep. Checks that a batch is sealed in the very
+/// step in which the size threshold is reached or the timer fires on a non-empty batch - and never otherwise - with
+/// exactly the open transactions, in order, byte for byte.
+fn drive<const E: usize>(batch_size: usize, evs: [Ev; E], select_start: usize) {
+    tokio::CTL.lock().unwrap().select_start = select_start;
+    let (tx_transaction, rx_transaction) = channel(10);
+    let (tx_message, mut rx_message) = channel(10);
+    let mut bm = BatchMaker {
+        batch_size,
+        max_batch_delay: 100,
+        rx_transaction,
+        tx_message,
+        mempool_addresses: vec![(pk(1), addr(201)), (pk(2), addr(202)), (pk(3), addr(203))],
+        current_batch: Batch::with_capacity(8),
+        current_batch_size: 0,
+        network: ReliableSender::new(),
+    };
+    let w = tokio::noop_waker();
+    let mut cx = Context::from_waker(&w);
+    let mut open: [[u8; MAXTX]; 4] = [[0; MAXTX]; 4];
+    let mut open_len: [usize; 4] = [0; 4];
+    let mut n_open = 0usize;
+    let mut open_bytes = 0usize;
+    let mut sealed = 0usize;
+    let mut e = 0;
+    while e < E {
+        let expect_seal;
+        match evs[e] {
+            Ev::Tx(len) => {
+                let (raw, t) = any_tx(len);
+                open[n_open] = raw;
+                open_len[n_open] = len;
+                n_open += 1;
+                open_bytes += len;
+                expect_seal = open_bytes >= batch_size;
+                let r = tx_transaction.send(t);
+                let mut r = std::pin::pin!(r);
+                assert!(matches!(r.as_mut().poll(&mut cx), Poll::Ready(Ok(()))));
+                tokio::CTL.lock().unwrap().timer_mode = 0;
+            }
+            Ev::Timer => {
+                expect_seal = n_open > 0;
+                tokio::CTL.lock().unwrap().timer_mode = 3;
+            }
+        }
+        {
+            let f = bm.run();
+            let mut f = std::pin::pin!(f);
+            assert!(f.as_mut().poll(&mut cx).is_ready(), "lowered run loop did not return when idle");
+        }
+        tokio::CTL.lock().unwrap().timer_mode = 0;
+        if expect_seal {
+            let m = rx_message.try_pop();
+            assert!(m.is_some(), "C11 batch not sealed although the size threshold was reached / the timer fired on a non-empty batch");
+            let m = m.unwrap();
+            match bincode::deserialize::<MempoolMessage>(&m.batch) {
+                Ok(MempoolMessage::Batch(b)) => {
+                    assert!(b.len() == n_open, "C11 sealed batch has a different number of transactions");
+                    let mut i = 0;
+                    while i < n_open {
+                        assert!(b[i].len() == open_len[i], "C11 transaction length changed");
+                        let mut j = 0;
+                        while j < open_len[i] {
+                            assert!(b[i][j] == open[i][j], "C11 transaction bytes changed or reordered");
+                            j += 1;
+                        }
+                        i += 1;
+                    }
+                    std::mem::forget(b);
+                }
+                _ => assert!(false, "C11 sealed batch is not a serialized Batch message"),
+            }
+            sealed += 1;
+            n_open = 0;
+            open_bytes = 0;
+            std::mem::forget(m);
+        }
+        assert!(rx_message.len() == 0, "C11 a batch was sealed although neither the threshold nor the timer asked for it");
+        e += 1;
+    }
+    assert!(network::SENT.lock().unwrap().len() == 3 * sealed, "C11 each sealed batch is broadcast once per peer");
+    vwit::cover!(sealed >= 1);
+    std::mem::forget(bm);
+    std::mem::forget((tx_transaction, rx_message));
+}
+macro_rules! bm_h {
+    ($name:ident, $bs:expr, $start:expr, [$($ev:expr),*]) => {
+        #[kani::proof]
+        #[kani::unwind(64)]
+        #[kani::stub(std::fmt::format, stub_format)]
+        fn $name() {
+            drive($bs, [$($ev),*], $start)
+        }
+    };
+}
+// size-triggered seal on the second tx, then an empty tx sealed by the timer
+bm_h!(c11_run_size_then_empty_s0, 10, 0, [Ev::Tx(4), Ev::Tx(6), Ev::Tx(0), Ev::Timer]);
+bm_h!(c11_run_size_then_empty_s1, 10, 1, [Ev::Tx(4), Ev::Tx(6), Ev::Tx(0), Ev::Timer]);
+// one oversized tx seals at once; a timer on an empty batch seals nothing; then a timer-triggered batch of two
+bm_h!(c11_run_oversize_timer_s0, 10, 0, [Ev::Tx(12), Ev::Timer, Ev::Tx(3), Ev::Tx(2), Ev::Timer]);
+// exact threshold, one below, two consecutive size-triggered batches
+bm_h!(c11_run_boundary_s1, 8, 1, [Ev::Tx(7), Ev::Tx(1), Ev::Tx(8), Ev::Tx(9)]);
+// only empty transactions pending when the timer fires
+bm_h!(c11_run_only_empty_s0, 10, 0, [Ev::Tx(0), Ev::Tx(0), Ev::Timer]);
